@@ -54,7 +54,14 @@ class MWorld:
             elif k == 'add_asset':
                 self.m.add_asset(self.assets[op[1]], asset_id=op[2], allow_duplicate_names=op[3])
             elif k == 'remove_asset':
-                self.m.remove_asset(self.assets[op[1]])
+                try:
+                    self.m.remove_asset(self.assets[op[1]])
+                except AttributeError:
+                    # an asset that was never added and has no name: the debug message itself fails; the call is
+                    # rejected and nothing changes, which is all C05 asks of an invalid call
+                    if any(self.assets[op[1]] is x for x in self.m.assets):
+                        raise
+                    return (2, None)
             elif k == 'new_assoc':
                 _, cls, lf, l, rf, r = op
                 o = getattr(self.lcf.ns, cls)()
@@ -67,7 +74,12 @@ class MWorld:
             elif k == 'remove_assoc':
                 self.m.remove_association(self.assocs[op[1]])
             elif k == 'remove_from_assoc':
-                self.m.remove_asset_from_association(self.assets[op[1]], self.assocs[op[2]])
+                try:
+                    self.m.remove_asset_from_association(self.assets[op[1]], self.assocs[op[2]])
+                except AttributeError:
+                    if any(self.assets[op[1]] is x for x in self.m.assets):
+                        raise
+                    return (2, None)
             elif k == 'set_assoc_extras':
                 self.assocs[op[1]].extras = copy.deepcopy(op[2])
             elif k == 'new_att':
@@ -91,6 +103,8 @@ class MWorld:
             else:
                 raise AssertionError(k)
             return (0, ret)
+        except RecursionError:
+            return (9, None)            # no API call may die of a recursion error; reported as a violation by run_history
         except DuplicateModelAssociationError:
             return (3, None)
         except ModelAssociationException:
@@ -215,8 +229,22 @@ def run_history(impl, L, ops):
             before = json.dumps(w.m._to_dict(), sort_keys=True, default=str)
         except Exception:
             pass
+        atts_before = list(w.m.attackers)
         oc, ret = w.apply(op)
         outs.append([oc, ret])
+        if op[0] == 'remove_att':
+            atts_after = list(w.m.attackers)
+            gone = [x for x in atts_before if not any(x is y for y in atts_after)]
+            t = w.atts[op[1]]
+            same = lambda a, b: a.id == b.id and a.name == b.name and len(a.entry_points) == len(b.entry_points) and \
+                all(x[0] is y[0] and list(x[1]) == list(y[1]) for x, y in zip(a.entry_points, b.entry_points))
+            if oc == 0 and (len(gone) != 1 or not (gone[0] is t or same(gone[0], t))):
+                viol.append((i, 'remove_attacker removed something other than the attacker it was given'))
+            if oc != 0 and gone:
+                viol.append((i, 'remove_attacker raised but removed an attacker'))
+        if oc == 9:
+            viol.append((i, f'{op[0]} raised RecursionError'))
+            break
         if oc != 0 and before is not None:
             try:
                 after = json.dumps(w.m._to_dict(), sort_keys=True, default=str)
@@ -226,9 +254,18 @@ def run_history(impl, L, ops):
                 pass
         if op[0] == 'add_asset' and oc == 0 and op[2] is not None and int(w.assets[op[1]].id) != op[2]:
             viol.append((i, 'an explicitly requested asset id was not honoured'))
-        for v in w.violations():
-            viol.append((i, v))
-    return outs, w.obs(), viol, w
+        try:
+            for v in w.violations():
+                viol.append((i, v))
+        except RecursionError:
+            viol.append((i, 'a query of the model raised RecursionError'))
+            break
+    try:
+        obs = w.obs()
+    except RecursionError:
+        obs = ['unobservable']
+        viol.append((len(ops), 'observing the model raised RecursionError'))
+    return outs, obs, viol, w
 
 
 class Gen:
